@@ -1,15 +1,16 @@
 (** C07 — verdict functions for harness/cmd/c07: schedules on the established connection (Judge.Tdc), on the
     still-dialing connection (Judge.Lazy) and on the non-pipelined transport (Judge.Reuse). *)
 From Verif Require Import Base.Prelude.
-From Verif Require Judge.Tdc Judge.Lazy Judge.Reuse Judge.Pool Judge.PPool.
-Export Judge.Tdc Judge.Lazy Judge.Reuse Judge.Pool Judge.PPool.
+From Verif Require Judge.Tdc Judge.Lazy Judge.Reuse Judge.Pool Judge.PPool Judge.Live.
+Export Judge.Tdc Judge.Lazy Judge.Reuse Judge.Pool Judge.PPool Judge.Live.
 Inductive case := KTdc (c : Judge.Tdc.case) | KLazy (c : Judge.Lazy.case) | KReuse (c : Judge.Reuse.case) | KBurst (c : Judge.Pool.bcase)
-  | KPool (c : Judge.PPool.case).
+  | KPool (c : Judge.PPool.case)
+  | KLive (c : Judge.Live.lcase).
 Definition agree (c : case) : bool :=
-  match c with KTdc x => Judge.Tdc.agree x | KLazy x => Judge.Lazy.agree x | KReuse x => Judge.Reuse.agree x | KBurst x => Judge.Pool.b_agree x | KPool x => Judge.PPool.agree x end.
+  match c with KTdc x => Judge.Tdc.agree x | KLazy x => Judge.Lazy.agree x | KReuse x => Judge.Reuse.agree x | KBurst x => Judge.Pool.b_agree x | KPool x => Judge.PPool.agree x | KLive x => Judge.Live.l_agree x end.
 Definition spec (c : case) : bool :=
-  match c with KTdc x => Judge.Tdc.spec_c07 x | KLazy x => Judge.Lazy.spec_c07 x | KReuse x => Judge.Reuse.spec_c07 x | KBurst x => Judge.Pool.b_spec_c07 x | KPool x => Judge.PPool.spec_c07 x end.
+  match c with KTdc x => Judge.Tdc.spec_c07 x | KLazy x => Judge.Lazy.spec_c07 x | KReuse x => Judge.Reuse.spec_c07 x | KBurst x => Judge.Pool.b_spec_c07 x | KPool x => Judge.PPool.spec_c07 x | KLive x => Judge.Live.l_spec x end.
 Definition nontrivial (c : case) : bool :=
-  match c with KTdc x => Judge.Tdc.nontrivial_c07 x | KLazy x => Judge.Lazy.nontrivial_c07 x | KReuse x => Judge.Reuse.nontrivial x | KBurst x => Judge.Pool.b_nontrivial x | KPool x => Judge.PPool.nontrivial x end.
+  match c with KTdc x => Judge.Tdc.nontrivial_c07 x | KLazy x => Judge.Lazy.nontrivial_c07 x | KReuse x => Judge.Reuse.nontrivial x | KBurst x => Judge.Pool.b_nontrivial x | KPool x => Judge.PPool.nontrivial x | KLive x => Judge.Live.l_nontrivial x end.
 Definition spec_relaxed (c : case) : bool :=
-  match c with KTdc x => Judge.Tdc.spec_c07_relaxed x | KLazy x => Judge.Lazy.spec_c07 x | KReuse x => Judge.Reuse.spec_c07 x | KBurst x => Judge.Pool.b_spec_c07 x | KPool x => Judge.PPool.spec_c07 x end.
+  match c with KTdc x => Judge.Tdc.spec_c07_relaxed x | KLazy x => Judge.Lazy.spec_c07 x | KReuse x => Judge.Reuse.spec_c07 x | KBurst x => Judge.Pool.b_spec_c07 x | KPool x => Judge.PPool.spec_c07 x | KLive x => Judge.Live.l_spec x end.
